@@ -197,8 +197,44 @@ fn forced_case(i: usize, sz: Size, seed: u64) -> CaseResult {
 }
 
 /// type block == Resources.*[ Type == 'T' ] { .. } ; bare clauses == rule default { .. }
+/// every scalar below `v` replaced, with probability 1/2, by another scalar
+fn vary_scalars(u: &mut Choices, v: &V) -> V {
+    match v {
+        V::Map(m) => V::Map(m.iter().map(|(k, x)| (k.clone(), vary_scalars(u, x))).collect()),
+        V::List(l) => V::List(l.iter().map(|x| vary_scalars(u, x)).collect()),
+        s => {
+            if u.chance(1, 2) {
+                gen_scalar(u)
+            } else {
+                s.clone()
+            }
+        }
+    }
+}
+
 fn rewrite_case(u: &mut Choices, sz: Size) -> CaseResult {
-    let doc = gen_cfn_doc(u, &sz);
+    let mut doc = gen_cfn_doc(u, &sz);
+    // two thirds of the documents: one more resource of an existing type, same shape, other values
+    // (so that a block evaluated per resource sees different values from resource to resource)
+    if u.chance(2, 3) {
+        if let V::Map(m) = &mut doc {
+            if let Some((_, V::Map(res))) = m.iter_mut().find(|(k, _)| k == "Resources") {
+                if !res.is_empty() {
+                    let i = u.below(res.len());
+                    let mut twin = res[i].1.clone();
+                    if let V::Map(tm) = &mut twin {
+                        for (k, x) in tm.iter_mut() {
+                            if k == "Properties" {
+                                *x = vary_scalars(u, x);
+                            }
+                        }
+                    }
+                    let at = u.below(res.len() + 1);
+                    res.insert(at, ("twin".to_string(), twin));
+                }
+            }
+        }
+    }
     let doc_text = doc.to_json();
     let mut g = PGen::new(&doc, scaled(u, sz));
     g.wide = false;
